@@ -164,6 +164,9 @@ type Obl struct {
 	Src    string
 	Pos    token.Position
 	Cover  bool // vacuity guard: expects SAT (reach satisfiable)
+	// site covers: the state after assuming a callee's contract must be satisfiable whenever the state before the call was
+	PreReach  string
+	PreNLines int
 
 	// results
 	Result  string // unsat, sat, unknown, timeout, error
